@@ -1,6 +1,8 @@
 (* C11: "a rejected standard adds nothing" and "a refused property set changes nothing": models
-   of the two places where the code did not keep this (D17, D54), in their repaired order and, as
-   regression witnesses, in the order they had before (no proofs in this file).
+   of the two places where the code did not keep this (D17, D54).  Which order the working tree has
+   is read from the C text on every run (gen_add_common_prevalidates, gen_order_vnaproperty_vset, ..._vset_subtree);
+   the other order is kept as a model variant that shows what the statement excludes (no proofs in
+   this file).
 
    D17  _vnacal_new_add_common (vnacal_new_add_common.c).  Before the repair the loop
             for (s_cell ...) full_s_matrix[...] = _vnacal_new_get_parameter(function, vnp, s_matrix[s_cell])
@@ -12,10 +14,12 @@
         tree has is read from the C text (LV.Gen.ErrnoGen.gen_add_common_prevalidates).
    D54  vnaproperty_vset (vnaproperty.c).  Before the repair parse_and_descend(set = true) created and
         replaced nodes along the path before the tests on the tail of the expression and on the
-        value token; repaired order: parse, tests, descend. *)
+        value token; repaired order: parse, tests, descend.  The order of these statements is now
+        taken from the C text (gen_order_vnaproperty_vset, gen_order_vnaproperty_vset_subtree) and
+        the model runs the body in that order (machine of LV.Err.OrderModel). *)
 Require Import List ZArith Bool.
 Import ListNotations.
-Require Import LV.Err.ErrBase LV.Gen.ErrnoGen.
+Require Import LV.Err.ErrBase LV.Gen.ErrnoGen LV.Err.OrderModel.
 Open Scope Z_scope.
 
 (* ---------------------------------------------------------------- D17 *)
@@ -53,15 +57,15 @@ Section AddCommon.
 
   Definition link (s : newsum) : newsum := mknew (n_registered s) (n_unknowns s) (n_measurements s + 1).
 
-  (* before the repair: register as you go, link at the end *)
-  Definition add_standard_before_fix (s : newsum) (cells : list Z) : newsum * outcome :=
+  (* no validation pass (the order before the repair of D17): register as you go, link at the end *)
+  Definition add_standard_register_first (s : newsum) (cells : list Z) : newsum * outcome :=
     match register_cells s cells with
     | (s', true) => (link s', Pass)
     | (s', false) => (s', Refuse VM1 (Via USAGE))
     end.
 
-  (* repaired order: validate every cell first *)
-  Definition add_standard (s : newsum) (cells : list Z) : newsum * outcome :=
+  (* validate every cell first (repaired order) *)
+  Definition add_standard_validate_first (s : newsum) (cells : list Z) : newsum * outcome :=
     if forallb (check_parameter s) cells then
       match register_cells s cells with
       | (s', true) => (link s', Pass)
@@ -71,7 +75,7 @@ Section AddCommon.
 
   (* the order found in the working tree *)
   Definition add_standard_current (s : newsum) (cells : list Z) : newsum * outcome :=
-    if gen_add_common_prevalidates then add_standard s cells else add_standard_before_fix s cells.
+    if gen_add_common_prevalidates then add_standard_validate_first s cells else add_standard_register_first s cells.
 End AddCommon.
 
 (* ---------------------------------------------------------------- D54 *)
@@ -99,23 +103,56 @@ Fixpoint descend_set (path : list Z) (f : ptree -> ptree) (t : ptree) : ptree :=
 Definition conform (path : list Z) (t : ptree) : ptree := descend_set path (fun x => x) t.
 Definition assign (path : list Z) (v : ptree) (t : ptree) : ptree := descend_set path (fun _ => v) t.
 
-(* value = None models a descriptor without "=value" / "#", or with a tail that cannot be assigned
-   to: EINVAL, no report (these functions have no error function) *)
+(* what parse() and the scanner leave behind for a descriptor (path of map keys only):
+     pd_parse_ok          parse() returned 0
+     pd_path              the keys to descend through
+     pd_tail_assignable   the last expression node is an element / dot, not "{}" or "[]" (E_MAP, E_LIST)
+     pd_token             the token after the path: "=value", "#", end of input, anything else *)
+Inductive ptoken : Type := TkAssign (v : Z) | TkHash | TkEof | TkOther.
+Record pdesc : Type := mkpdesc {
+  pd_parse_ok : bool; pd_path : list Z; pd_tail_assignable : bool; pd_token : ptoken }.
 
-(* before the repair: descend (conform) first, then look at the value *)
-Definition vset_before_fix (t : ptree) (path : list Z) (value : option ptree) : ptree * outcome :=
-  match value with
-  | Some v => (assign path v t, Pass)
-  | None => (conform path t, Refuse VM1 (Direct E_INVAL))
-  end.
+Definition einval_m1 : refusal := (VM1, Direct E_INVAL).     (* errno = EINVAL, -1, nothing reported *)
+Definition einval_null : refusal := (VNULL, Direct E_INVAL).
 
-(* repaired order: parse, test the tail and the value token, then descend *)
-Definition vset (t : ptree) (path : list Z) (value : option ptree) : ptree * outcome :=
-  match value with
-  | None => (t, Refuse VM1 (Direct E_INVAL))
-  | Some v => (assign path v t, Pass)
-  end.
+(* vnaproperty_vset: its three refusing statements in the order of the C text *)
+Definition vset_checks (d : pdesc) : list (ptree -> option refusal) :=
+  [fun _ => if pd_parse_ok d then None else Some einval_m1;
+   fun _ => if pd_tail_assignable d then None else Some einval_m1;
+   fun _ => match pd_token d with TkAssign _ | TkHash => None | _ => Some einval_m1 end].
 
-(* vnaproperty_vset_subtree: trailing = a token follows the descriptor *)
-Definition vset_subtree (t : ptree) (path : list Z) (trailing : bool) : ptree * outcome :=
-  if trailing then (t, Refuse VNULL (Direct E_INVAL)) else (conform path t, Pass).
+Definition vset_value (d : pdesc) : ptree :=
+  match pd_token d with TkAssign v => PScalar v | _ => PNull end.
+
+(* its write events: the first is descend(set = true), which makes the tree conform to the path; the
+   last installs the value; anything between (vnaproperty_free of the old value) does not show *)
+Definition vset_writes (d : pdesc) (n k : nat) (t : ptree) : ptree * option refusal :=
+  if Nat.eqb (S k) n then (assign (pd_path d) (vset_value d) t, None)
+  else if Nat.eqb k 0 then (conform (pd_path d) t, None)
+  else (t, None).
+
+Definition vset_body (sk : list ev) (d : pdesc) : list (act ptree) :=
+  assemble sk (vset_checks d) [] (vset_writes d (count_writes sk)) 0%nat.
+
+Definition vset_in_order (sk : list ev) (t : ptree) (d : pdesc) : ptree * outcome :=
+  let (t', m) := run (vset_body sk d) t in (t', outcome_of m).
+
+(* the order found in the working tree *)
+Definition vset (t : ptree) (d : pdesc) : ptree * outcome := vset_in_order gen_order_vnaproperty_vset t d.
+
+(* vnaproperty_vset_subtree: parse, "no token may follow", descend *)
+Definition vset_subtree_checks (d : pdesc) : list (ptree -> option refusal) :=
+  [fun _ => if pd_parse_ok d then None else Some einval_null;
+   fun _ => match pd_token d with TkEof => None | _ => Some einval_null end].
+
+Definition vset_subtree_body (sk : list ev) (d : pdesc) : list (act ptree) :=
+  assemble sk (vset_subtree_checks d) [] (fun _ t => (conform (pd_path d) t, None)) 0%nat.
+
+Definition vset_subtree_in_order (sk : list ev) (t : ptree) (d : pdesc) : ptree * outcome :=
+  let (t', m) := run (vset_subtree_body sk d) t in (t', outcome_of m).
+
+Definition vset_subtree (t : ptree) (d : pdesc) : ptree * outcome :=
+  vset_subtree_in_order gen_order_vnaproperty_vset_subtree t d.
+
+(* model variant: the order vnaproperty_vset had before the repair of D54 (descend, then the tests) *)
+Definition order_variant_descend_first : list ev := [EvC; EvF; EvC; EvC; EvA; EvW; EvW].
